@@ -90,6 +90,9 @@ class _SetSites:
                     return f.attr in self.set_funcs
         return False
 
+    def _escape_followed(self, call, arg):
+        return False
+
     def _is_analysis_call(self, f):
         """self.analyzer.m(...), self._analyzer.m(...), analysis.m(...)"""
         v = f.value
@@ -171,6 +174,8 @@ class _SetSites:
                         pass  # set algebra
                     elif isinstance(f, ast.Attribute) and f.attr == "join":
                         add(a, "join", False, True)
+                    elif self._escape_followed(n, a):
+                        pass
                     else:
                         self.problems.append(f"{self.relpath}:{n.lineno}: set-typed value escapes into call {ast.unparse(f)}(...) -- cannot tell whether it is iterated")
                 if isinstance(f, ast.Attribute) and f.attr == "pop" and self.is_set(f.value, setvars):
@@ -372,6 +377,7 @@ class _SetSitesWide(_SetSites):
     def __init__(self, relpath, tree):
         super().__init__(relpath, tree, set(), set())
         self.unresolved = []
+        self.followed = []
         self.module_sets = set()
         for n in tree.body:
             tv = []
@@ -391,6 +397,37 @@ class _SetSitesWide(_SetSites):
         return super().is_set(e, setvars)
 
     def _is_analysis_call(self, f):
+        return False
+
+    def _escape_followed(self, call, arg):
+        """One level of following for a set that is passed to a call:
+        (a) the callee is a function of the same module and the parameter that receives the set is annotated as a set: the
+            callee's body is scanned with that parameter as a set (scan_function seeds annotated parameters), so every
+            iteration of it is a site of its own;
+        (b) the set is the default of `<mapping>.get(key, set())`: the result is again a set-typed value (is_set knows
+            `.get(.., set())`), the call itself does not iterate."""
+        f = call.func
+        if isinstance(f, ast.Name):
+            callee = next((n for n in self.tree.body if isinstance(n, (ast.FunctionDef, ast.AsyncFunctionDef)) and n.name == f.id), None)
+            if callee is None:
+                return False
+            params = callee.args.posonlyargs + callee.args.args
+            target = None
+            for i, a in enumerate(call.args):
+                if a is arg and i < len(params) and not isinstance(a, ast.Starred):
+                    target = params[i]
+            for k in call.keywords:
+                if k.value is arg and k.arg is not None:
+                    target = next((p for p in params + callee.args.kwonlyargs if p.arg == k.arg), None)
+            ok = target is not None and target.annotation is not None and ast.unparse(target.annotation).startswith(_SET_ANN)
+            if ok:
+                self.followed.append(f"{self.relpath}:{call.lineno}: {f.id}(.. {target.arg}: {ast.unparse(target.annotation)[:40]} ..) -- callee scanned with the parameter as a set")
+            return ok
+        if isinstance(f, ast.Attribute) and f.attr == "get" and len(call.args) == 2 and call.args[1] is arg \
+                and isinstance(arg, ast.Call) and isinstance(arg.func, ast.Name) and arg.func.id in ("set", "frozenset") and not arg.args:
+            self.followed.append(f"{self.relpath}:{call.lineno}: {ast.unparse(f)}(key, set()) -- default of a mapping lookup, the call does not iterate; "
+                                 "the looked-up value is treated as a set where it is used")
+            return True
         return False
 
     def _only_nonemit_calls(self, nodes):
@@ -431,6 +468,8 @@ def _with_set_args(fn, names):
 
 def wide_sites(repo):
     sites, unresolved, problems = [], [], []
+    followed = []
+    wide_sites.followed = followed
     seen = set()
     for rel in WIDE_FILES:
         if rel in seen:
@@ -449,6 +488,7 @@ def wide_sites(repo):
         s, _p = w.run()
         sites += s
         unresolved += w.unresolved
+        followed += _dedupe(w.followed)
     sites.sort(key=lambda s: (s["file"], s["line"], s["kind"], s["expr"]))
     rows = []
     for s in sites:
@@ -1263,6 +1303,7 @@ def rule_cfgs(repo):
         return "", [], ["RewriteRuleClassBase not found in " + BASE_FILES[0]]
     rules = []
     abstract = []
+    covered_by = {}
     for (rel, name), ci in sorted(table.classes.items()):
         if ci is base or rel in BASE_FILES:
             continue
@@ -1283,6 +1324,9 @@ def rule_cfgs(repo):
             if pm is None or pc.rel in BASE_FILES:
                 abstract.append(f"{rel}:{name}")   # PatternBase.pattern is abstract: the class cannot be instantiated
                 continue
+            for anc in mro:
+                if anc != "external" and anc is not ci:
+                    covered_by.setdefault(f"{anc.rel}:{anc.name}", []).append(name)
             check = simplify(tr.method_cfg("check"))
             rewrite = simplify(tr.method_cfg("rewrite"))
             setup = simplify(tr.method_cfg("setup"))
@@ -1298,6 +1342,11 @@ def rule_cfgs(repo):
                           "mutable": sorted(written), "reads": sorted(set(ir_reads(check) + ir_reads(rewrite)))})
         except Problem as e:
             problems.append(str(e))
+    # a base class without pattern() is analysed through its concrete subclasses (inherited check/rewrite are inlined there)
+    for a in abstract:
+        if not covered_by.get(a):
+            problems.append(f"{a}: rule base class without pattern() and without a translated concrete subclass: its check/rewrite are never analysed")
+    rule_cfgs.abstract_covered_by = {a: sorted(set(covered_by.get(a, []))) for a in abstract}
     # the constant folding pass object
     try:
         ptable = Table(repo, [PASS_FILE])
@@ -1312,12 +1361,29 @@ def rule_cfgs(repo):
     except (Problem, KeyError, IndexError) as e:
         problems.append(f"{PASS_FILE}: {e}")
         pass_rule = None
+    # the rule-set object (the default rule set is a module-level object shared by every rewriter.rewrite call)
+    set_rule = None
+    try:
+        stable = Table(repo, [BASE_FILES[0]])
+        sci = stable.by_name["RewriteRuleSet"][0]
+        strn = Translator(stable, sci)
+        call = simplify(strn.method_cfg("apply_to_model"))
+        init = strn.init_fields()
+        written = set(ir_writes(call))
+        set_rule = {"name": "rewriter/_rewrite_rule:RewriteRuleSet.apply_to_model", "ident": "pass_rule_set",
+                    "config": sorted(init - written), "check": call, "rewrite": ("Skip",), "caches": [],
+                    "mutable": sorted(written), "reads": sorted(set(ir_reads(call)))}
+        if "rules" not in set_rule["config"]:
+            problems.append(f"{BASE_FILES[0]}: RewriteRuleSet: `rules` is not a configuration field any more")
+    except (Problem, KeyError, IndexError) as e:
+        problems.append(f"{BASE_FILES[0]}: RewriteRuleSet.apply_to_model: {e}")
+    rule_cfgs.set_rule = set_rule
     out = ["(* generated by harness/c14_translate.py (rule_cfgs) from onnxscript/rewriter/{rules,ort_fusions}/**.py, "
            "_rewrite_rule.py and optimizer/_constant_folding.py -- do not edit *)",
            "From Coq Require Import List String.", "Require Import OV.Determinism.MustDef.", "Import ListNotations.",
            "Local Open Scope string_scope.", ""]
     fl = lambda fs: "[" + "; ".join('"' + f + '"' for f in fs) + "]"
-    for r in rules + ([pass_rule] if pass_rule else []):
+    for r in rules + ([pass_rule] if pass_rule else []) + ([set_rule] if set_rule else []):
         out.append(f"Definition {r['ident']} : rule :=\n  {{| r_name := \"{r['name']}\";\n     r_config := {fl(r['config'])};\n"
                    f"     r_check :=\n      {to_coq(r['check'], 6)};\n     r_rewrite :=\n      {to_coq(r['rewrite'], 6)} |}}.\n")
     out.append("Definition all : list rule := [" + ";\n  ".join(r["ident"] for r in rules) + "].\n")
@@ -1325,6 +1391,8 @@ def rule_cfgs(repo):
         out.append("Definition passes : list rule := [pass_fold_constants].\n")
     else:
         out.append("Definition passes : list rule := [].\n")
+    out.append("(* kept apart from `passes`: whether it passes the must-definition check is decided (and reported) by the harness *)")
+    out.append("Definition ruleset_passes : list rule := [" + ("pass_rule_set" if set_rule else "") + "].\n")
     rule_cfgs.abstract = abstract
     return "\n".join(out), rules + ([pass_rule] if pass_rule else []), problems
 
@@ -1484,3 +1552,289 @@ if __name__ == "__main__":
     for r in rules:
         if r["mutable"] or r["caches"]:
             print(r["name"], "mutable", r["mutable"], "config", r["config"], "caches", r["caches"])
+
+
+# =============================================================================================
+# 4. process-wide mutable state of the anchored modules -> Gen/ProcessStateSites.v
+# =============================================================================================
+
+STATE_FILES = [
+    "onnxscript/_internal/converter.py", "onnxscript/_internal/values.py", "onnxscript/_internal/main.py",
+    "onnxscript/_internal/irbuilder.py", "onnxscript/_internal/analysis.py", "onnxscript/_internal/autocast.py",
+    "onnxscript/optimizer/_constant_folding.py", "onnxscript/optimizer/_optimizer.py", "onnxscript/optimizer/__init__.py",
+    "onnxscript/rewriter/_pattern_ir.py", "onnxscript/rewriter/_rewrite_rule.py", "onnxscript/rewriter/_basics.py",
+    "onnxscript/rewriter/_matcher.py", "onnxscript/rewriter/__init__.py", "onnxscript/rewriter/_ir_utils.py",
+    "onnxscript/rewriter/rules/common/_basic_rules.py", "onnxscript/rewriter/rules/common/_fuse_pad_into_conv.py",
+    "onnxscript/rewriter/rules/common/_materialize_reshape_shape.py", "onnxscript/rewriter/rules/fusion/_rms_normalization.py",
+    "onnxscript/version_converter/__init__.py", "onnxscript/version_converter/_version_converter.py",
+]
+IMMUTABLE_CALLS = {"frozenset", "TypeVar", "ParamSpec", "object", "logging.getLogger", "tuple", "re.compile", "typing.TypeVar",
+                   "NewType", "typing.NewType", "namedtuple", "collections.namedtuple"}
+CONTAINER_CALLS = {"dict", "list", "set", "collections.defaultdict", "defaultdict", "collections.OrderedDict", "OrderedDict",
+                   "collections.Counter", "Counter", "collections.deque", "deque", "bytearray", "weakref.WeakValueDictionary",
+                   "weakref.WeakKeyDictionary"}
+COUNTER_CALLS = {"itertools.count", "count"}
+
+
+def _name_mutations(tree, name):
+    """(lineno, inside a function?) of every statement that mutates / rebinds the module-level object `name`."""
+    out = []
+
+    def visit(n, infn):
+        for c in ast.iter_child_nodes(n):
+            inner = infn or isinstance(c, (ast.FunctionDef, ast.AsyncFunctionDef, ast.Lambda))
+            is_n = lambda e: isinstance(e, ast.Name) and e.id == name
+            if isinstance(c, ast.Subscript) and isinstance(c.ctx, (ast.Store, ast.Del)) and is_n(c.value):
+                out.append((c.lineno, infn))
+            if isinstance(c, ast.AugAssign) and (is_n(c.target) or (isinstance(c.target, ast.Subscript) and is_n(c.target.value))):
+                out.append((c.lineno, infn))
+            if isinstance(c, ast.Call) and isinstance(c.func, ast.Attribute) and c.func.attr in MUTATORS and is_n(c.func.value):
+                out.append((c.lineno, infn))
+            if isinstance(c, ast.Global) and name in c.names:
+                out.append((c.lineno, True))
+            visit(c, inner)
+    visit(tree, False)
+    return out
+
+
+def _class_mutators(cls):
+    """names of the methods (other than constructors) that store into / mutate fields of self"""
+    res = set()
+    for m in cls.body:
+        if not isinstance(m, (ast.FunctionDef, ast.AsyncFunctionDef)) or m.name in ("__init__", "__new__", "__post_init__"):
+            continue
+        for n in ast.walk(m):
+            if isinstance(n, ast.Attribute) and _is_self(n.value) and isinstance(n.ctx, (ast.Store, ast.Del)):
+                res.add(m.name)
+            if isinstance(n, ast.Subscript) and isinstance(n.ctx, (ast.Store, ast.Del)) and _field_root(n.value, {}) is not None:
+                res.add(m.name)
+            if isinstance(n, ast.Call) and isinstance(n.func, ast.Attribute) and n.func.attr in MUTATORS and _field_root(n.func.value, {}) is not None:
+                res.add(m.name)
+            if isinstance(n, ast.AugAssign) and isinstance(n.target, ast.Attribute) and _is_self(n.target.value):
+                res.add(m.name)
+    return res
+
+
+def _module_file(repo, dotted):
+    p = os.path.join(repo, *dotted.split("."))
+    if os.path.exists(p + ".py"):
+        return p + ".py"
+    if os.path.exists(os.path.join(p, "__init__.py")):
+        return os.path.join(p, "__init__.py")
+    return None
+
+
+def _imports_of(tree, rel):
+    """local name -> dotted onnxscript module it denotes"""
+    pkg = rel[:-3].replace("/", ".").rsplit(".", 1)[0]
+    out = {}
+    for n in tree.body:
+        if isinstance(n, ast.Import):
+            for a in n.names:
+                if a.name.startswith("onnxscript"):
+                    out[a.asname or a.name] = a.name
+        elif isinstance(n, ast.ImportFrom):
+            base = n.module or ""
+            if n.level:
+                parts = (rel[:-3].replace("/", ".")).split(".")
+                base = ".".join(parts[:len(parts) - n.level] + ([n.module] if n.module else []))
+            if base.startswith("onnxscript"):
+                for a in n.names:
+                    out[a.asname or a.name] = base + "." + a.name
+    return out
+
+
+def process_state(repo, rule_names=(), memos=()):
+    sites, problems = [], []
+    rule_by_class = {}
+    for r in rule_names:          # "rules/common/_basic_rules:ReshapeReshape"
+        mod, cls = r["name"].split(":") if isinstance(r, dict) else r.split(":")
+        rule_by_class[("onnxscript/rewriter/" + mod + ".py", cls)] = r["ident"] if isinstance(r, dict) else None
+
+    def add(rel, name, disc, why):
+        sites.append({"module": rel[len("onnxscript/"):-3], "name": name, "disc": disc, "why": why})
+
+    for rel in STATE_FILES:
+        path = os.path.join(repo, rel)
+        if not os.path.exists(path):
+            problems.append(f"{rel}: file not found")
+            continue
+        tree = ast.parse(open(path).read())
+        classes = {n.name: n for n in tree.body if isinstance(n, ast.ClassDef)}
+        imports = _imports_of(tree, rel)
+
+        def find_class(func):
+            """class node constructed by the call expression `func(...)`, or None"""
+            if isinstance(func, ast.Name) and func.id in classes:
+                return classes[func.id], rel
+            dotted = None
+            if isinstance(func, ast.Attribute) and isinstance(func.value, ast.Name) and func.value.id in imports:
+                dotted, cname = imports[func.value.id], func.attr
+            elif isinstance(func, ast.Name) and func.id in imports:
+                dotted, cname = imports[func.id].rsplit(".", 1)
+            if dotted:
+                f = _module_file(repo, dotted)
+                if f:
+                    for n in ast.parse(open(f).read()).body:
+                        if isinstance(n, ast.ClassDef) and n.name == cname:
+                            return n, os.path.relpath(f, repo)
+            return None, None
+
+        def classify_value(name, v, lineno):
+            txt = ast.unparse(v.func) if isinstance(v, ast.Call) else ""
+            if isinstance(v, (ast.Constant, ast.Tuple, ast.Subscript, ast.BinOp, ast.UnaryOp, ast.JoinedStr, ast.Lambda)):
+                return None
+            if isinstance(v, (ast.Name, ast.Attribute)):
+                return None                                   # alias of an object classified where it is created
+            if isinstance(v, ast.Call) and txt in IMMUTABLE_CALLS:
+                return None
+            if isinstance(v, (ast.List, ast.Dict, ast.Set, ast.ListComp, ast.DictComp, ast.SetComp)) or txt in CONTAINER_CALLS:
+                muts = [m for m in _name_mutations(tree, name)]
+                if not any(infn for _l, infn in muts):
+                    return ("WriteOnceAtImport", "container never mutated inside a function of its module")
+                return ("Uncontrolled", f"container mutated at run time (lines {[l for l, i in muts if i]})")
+            if txt in COUNTER_CALLS:
+                return ("Uncontrolled", "process-wide counter")
+            if isinstance(v, ast.Call):
+                last = txt.split(".")[-1]
+                if last == "rule" and isinstance(v.func, ast.Attribute) and isinstance(v.func.value, ast.Name) and v.func.value.id in classes:
+                    ident = rule_by_class.get((rel, v.func.value.id))
+                    if ident is None:
+                        problems.append(f"{rel}:{lineno}: rule object {name} of class {v.func.value.id} which rule_cfgs did not translate")
+                        return ("Uncontrolled", "rule class not translated")
+                    return ("RuleObject:" + ident, "rule object: per-match fields, must-definition check of its class")
+                if last == "RewriteRuleSet" or last == "apply_fusion_rules":
+                    return ("RuleSet", "rule-set object: naming state re-initialised by apply_to_model (must-definition check of RewriteRuleSet.apply_to_model)")
+                cls, crel = find_class(v.func)
+                if cls is not None:
+                    mut = _class_mutators(cls)
+                    if not mut:
+                        return ("WriteOnceAtImport", f"instance of {cls.name}: no method stores into self after construction")
+                    if mut <= {"register"}:
+                        uses = [n for n in ast.walk(tree) if isinstance(n, ast.Attribute) and n.attr == "register" and isinstance(n.value, ast.Name) and n.value.id == name]
+                        top_alias = [n for n in tree.body if isinstance(n, ast.Assign) and any(u is n.value for u in uses)]
+                        if len(uses) == len(top_alias):
+                            alias = {t.id for a in top_alias for t in a.targets if isinstance(t, ast.Name)}
+                            infn = [n for f in ast.walk(tree) if isinstance(f, (ast.FunctionDef, ast.AsyncFunctionDef)) for b in f.body for n in ast.walk(b)
+                                    if isinstance(n, ast.Call) and isinstance(n.func, ast.Name) and n.func.id in alias]
+                            if not infn:
+                                return ("WriteOnceAtImport", f"registry {cls.name}: filled by register decorators while the module is imported, only read afterwards")
+                        return ("Uncontrolled", f"registry {cls.name} written at run time")
+                    if cls.name in MEMO_CLASSES:
+                        ms = [m for m in memos if m["owner"] == cls.name]
+                        if ms and all(set(m["fun"]) <= set(m["key"]) for m in ms):
+                            return ("KeyedBy:" + ",".join(ms[0]["key"]) + ":" + ",".join(ms[0]["fun"]), "memo tables of " + cls.name)
+                    return ("Uncontrolled", f"instance of {cls.name}: methods {sorted(mut)} store into self")
+                problems.append(f"{rel}:{lineno}: module-level object {name} = {txt}(...) of a shape this translator does not know")
+                return ("Uncontrolled", "unknown constructor")
+            problems.append(f"{rel}:{lineno}: module-level assignment {name} = <{type(v).__name__}> of a shape this translator does not know")
+            return ("Uncontrolled", "unknown shape")
+
+        for n in tree.body:
+            if isinstance(n, (ast.Assign, ast.AnnAssign)):
+                if n.value is None:
+                    continue
+                tgts = n.targets if isinstance(n, ast.Assign) else [n.target]
+                for t in tgts:
+                    if not isinstance(t, ast.Name):
+                        problems.append(f"{rel}:{n.lineno}: module-level store into {ast.unparse(t)}")
+                        continue
+                    r = classify_value(t.id, n.value, n.lineno)
+                    if r is not None:
+                        add(rel, t.id, r[0], r[1])
+            elif isinstance(n, ast.AugAssign):
+                problems.append(f"{rel}:{n.lineno}: module-level augmented assignment")
+            elif isinstance(n, ast.ClassDef):
+                for m in n.body:
+                    if isinstance(m, (ast.Assign, ast.AnnAssign)) and m.value is not None:
+                        tg = (m.targets[0] if isinstance(m, ast.Assign) else m.target)
+                        v = m.value
+                        txt = ast.unparse(v.func) if isinstance(v, ast.Call) else ""
+                        if isinstance(v, (ast.Constant, ast.Tuple, ast.Name, ast.Attribute, ast.Subscript, ast.BinOp, ast.Lambda)) or txt in IMMUTABLE_CALLS \
+                                or (isinstance(v, ast.Call) and txt.split(".")[-1] in ("field", "property", "staticmethod", "classmethod", "auto")):
+                            continue
+                        if not isinstance(tg, ast.Name):
+                            problems.append(f"{rel}:{m.lineno}: class-level store into {ast.unparse(tg)}")
+                            continue
+                        if not (isinstance(v, (ast.Dict, ast.List, ast.Set)) or txt in CONTAINER_CALLS):
+                            problems.append(f"{rel}:{m.lineno}: class attribute {n.name}.{tg.id} = {ast.unparse(v)[:40]} of a shape this translator does not know")
+                            continue
+                        # stores  <cls|self|ClassName>.<attr>[key] = value  in the methods of the class
+                        stores = []
+                        bad = []
+                        for meth in n.body:
+                            if not isinstance(meth, (ast.FunctionDef, ast.AsyncFunctionDef)):
+                                continue
+                            params = [a.arg for a in meth.args.posonlyargs + meth.args.args + meth.args.kwonlyargs if a.arg != "self"]
+                            assigns = {}
+                            for x in ast.walk(meth):
+                                if isinstance(x, ast.Assign) and len(x.targets) == 1 and isinstance(x.targets[0], ast.Name):
+                                    assigns.setdefault(x.targets[0].id, []).append(x.value)
+                            for x in ast.walk(meth):
+                                is_attr = lambda e: isinstance(e, ast.Attribute) and e.attr == tg.id and isinstance(e.value, ast.Name) and e.value.id in ("cls", "self", n.name)
+                                if isinstance(x, ast.Subscript) and isinstance(x.ctx, ast.Store) and is_attr(x.value):
+                                    key = x.slice
+                                    if isinstance(key, ast.Name) and key.id not in params and len(assigns.get(key.id, [])) == 1:
+                                        key = assigns[key.id][0]
+                                    kn = [y.id for y in ast.walk(key) if isinstance(y, ast.Name)]
+                                    if any(k not in params for k in kn):
+                                        bad.append(x.lineno)
+                                    stores.append((kn, params))
+                                elif isinstance(x, ast.Subscript) and isinstance(x.ctx, ast.Del) and is_attr(x.value):
+                                    bad.append(x.lineno)
+                                elif isinstance(x, ast.Call) and isinstance(x.func, ast.Attribute) and x.func.attr in MUTATORS and is_attr(x.func.value):
+                                    bad.append(x.lineno)
+                                elif isinstance(x, ast.Attribute) and isinstance(x.ctx, ast.Store) and is_attr(x):
+                                    bad.append(x.lineno)
+                        if bad:
+                            add(rel, f"{n.name}.{tg.id}", "Uncontrolled", f"class-level container mutated in a way that is not a keyed store (lines {bad})")
+                        elif not stores:
+                            add(rel, f"{n.name}.{tg.id}", "WriteOnceAtImport", "class-level container never written by the methods of the class")
+                        else:
+                            kn, params = stores[0]
+                            if any(s != stores[0] for s in stores):
+                                add(rel, f"{n.name}.{tg.id}", "Uncontrolled", "several differently keyed stores")
+                            else:
+                                add(rel, f"{n.name}.{tg.id}", "KeyedBy:" + ",".join(_dedupe(kn)) + ":" + ",".join(params),
+                                    "class-level table: key names / parameters of the storing method")
+        # cached functions
+        for n in ast.walk(tree):
+            if isinstance(n, (ast.FunctionDef, ast.AsyncFunctionDef)):
+                for d in n.decorator_list:
+                    if _is_cache_decorator(d):
+                        ps = [a.arg for a in n.args.posonlyargs + n.args.args + n.args.kwonlyargs]
+                        add(rel, n.name + "@" + ast.unparse(d).split("(")[0].split(".")[-1], "KeyedBy:" + ",".join(ps) + ":" + ",".join(ps),
+                            "functools cache: keyed by all arguments")
+                globs = [g for g in ast.walk(n) if isinstance(g, ast.Global)]
+                for g in globs:
+                    for gname in g.names:
+                        is_cm = any("contextmanager" in ast.unparse(d) for d in n.decorator_list)
+                        restored = any(isinstance(t, ast.Try) and any(isinstance(a, ast.Assign) and any(isinstance(tt, ast.Name) and tt.id == gname for tt in a.targets)
+                                                                      for fb in t.finalbody for a in ast.walk(fb)) for t in ast.walk(n))
+                        if is_cm and restored:
+                            add(rel, gname + "@" + n.name, "ScopedRestore", "swapped by a context manager, restored in a finally clause")
+                        elif is_cm:
+                            add(rel, gname + "@" + n.name, "Uncontrolled", "swapped by a context manager that does not restore it when the body raises (no try/finally)")
+                        else:
+                            add(rel, gname + "@" + n.name, "Uncontrolled", "module global rebound by a function")
+    fl = lambda fs: "[" + "; ".join('"' + f + '"' for f in fs if f) + "]"
+    out = ["(* generated by harness/c14_translate.py (process_state) from the module-level / class-level assignments, cache decorators and "
+           "`global` statements of " + str(len(STATE_FILES)) + " modules -- do not edit *)",
+           "From Coq Require Import List String.", "Require Import OV.Determinism.MustDef OV.Determinism.ProcessState OV.Gen.RuleCfgs.",
+           "Import ListNotations.", "Local Open Scope string_scope.", "", "Definition state_sites : list state_site := ["]
+    rows = []
+    for s in sites:
+        d = s["disc"]
+        if d.startswith("KeyedBy:"):
+            _k, kp, fp = d.split(":")
+            dc = f"KeyedBy {fl(kp.split(','))} {fl(fp.split(','))}"
+        elif d.startswith("RuleObject:"):
+            dc = f"(if rule_ok {d.split(':')[1]} then ResetPerOperation else Uncontrolled)"
+        elif d == "RuleSet":
+            dc = "(if forallb rule_ok RuleCfgs.ruleset_passes then ResetPerOperation else Uncontrolled)"
+        else:
+            dc = d
+        rows.append(f'  {{| ps_module := "{s["module"]}"; ps_name := "{s["name"]}"; ps_discipline := {dc} |}}')
+    out.append(";\n".join(rows))
+    out.append("].")
+    return "\n".join(out) + "\n", sites, problems
